@@ -69,9 +69,13 @@ def vclass(kind):
     if kind == 'cmd2': return base                              # \S+ would also take quotes; the property says non-quote
     raise KeyError(kind)
 
+UNI_WS = ['\u00a0', '\u2003', '\u3000', '\u0085', '\x1c', '\x1d', '\x1e', '\x1f', '\u2028']   # \s for re (str patterns) and str.isspace()
 FLAGS = ['--osuser', '-p', '--flag', '--x', '-P', '--Key_file', '--a', '-Z', '--a_b']
 
 def casing(rng, key, how):
+    if how == 4:       # KELVIN SIGN for k/K: 'TO\u212aEN'.lower() == 'token'
+        base = casing(rng, key, rng.randrange(4))
+        return ''.join('\u212a' if c in 'kK' and rng.random() < 0.7 else c for c in base)
     if how == 0: return key
     if how == 1: return key.upper()
     if how == 2: return key[0].upper() + key[1:]
@@ -85,8 +89,8 @@ RENDERINGS = ['bare', 'bare_sp', 'eq_dq', 'eq_sq', 'eq_dq_oq', 'eq_sq_oq', 'kq',
 
 def rendering(rng, r, K, v_of):
     """returns [head, value, tail]; v_of(kind) draws a value of the class"""
-    sp = lambda: rng.choice(['', ' ', '  ', '\t'])
-    sp1 = lambda: rng.choice([' ', '  ', '\t'])
+    sp = lambda: rng.choice(['', ' ', '  ', '\t']) if rng.random() < 0.85 else rng.choice(UNI_WS) * rng.choice([1, 1, 2])
+    sp1 = lambda: rng.choice([' ', '  ', '\t']) if rng.random() < 0.85 else rng.choice(UNI_WS) * rng.choice([1, 1, 2])
     if r == 'bare': return [K + '=', v_of('bare'), '']
     if r == 'bare_sp': return [K + sp() + '=' + sp(), v_of('bare'), '']
     if r == 'eq_dq': return [K + sp() + '=' + sp() + '"', v_of('q'), '"']
@@ -135,14 +139,15 @@ def mk_case(rng, items, secret=None, pre=None, post=None):
     """items: list of [head, value, tail]; neutral words between, before and after"""
     segs = []
     pre = neutral(rng, rng.randint(0, 3)) if pre is None else pre
-    if pre: segs.append(pre + rng.choice([' ', '\n', '\t', '  ']))
+    ws = lambda: rng.choice([' ', '\n', '\t', '  ']) if rng.random() < 0.85 else rng.choice(UNI_WS)
+    if pre: segs.append(pre + ws())
     for i, it in enumerate(items):
         if i:
             mid = neutral(rng, rng.randint(0, 2))
-            segs.append(' ' + (mid + ' ' if mid else ''))
+            segs.append(ws() + (mid + ws() if mid else ''))
         segs.append(it)
     post = neutral(rng, rng.randint(0, 3)) if post is None else post
-    if post: segs.append(rng.choice([' ', '\n', '  ']) + post)
+    if post: segs.append((rng.choice([' ', '\n', '  ']) if rng.random() < 0.85 else rng.choice(UNI_WS)) + post)
     return {'op': 'mask', 'segs': segs, 'secret': secret if secret is not None else rng.choice(MASKS)}
 
 def case_msg(c):
@@ -204,9 +209,105 @@ def systematic(rng, tier):
             return v if not has_key(v) else 'z' * n
         yield mk_case(rng, [rendering(rng, r, k, vn)])
 
+def many_secrets(rng, n_cases):
+    """3..6 secrets in one message: same key + same rendering, same key + different renderings, different keys
+    (a substitution that stops after a fixed number of matches leaves the later ones in clear text)"""
+    for i in range(n_cases):
+        n = rng.randint(3, 6)
+        mode = i % 3
+        k0 = rng.choice(SPEC_KEYS); r0 = rng.choice(RENDERINGS); how0 = rng.randrange(4)
+        items = []
+        for _ in range(n):
+            if mode == 0: k, r, how = k0, r0, how0
+            elif mode == 1: k, r, how = k0, rng.choice(RENDERINGS), rng.randrange(4)
+            else: k, r, how = rng.choice(SPEC_KEYS), rng.choice(RENDERINGS), rng.randrange(4)
+            K = casing(rng, k, how) + (digits(rng, how) if mode else '')
+            items.append(rendering(rng, r, K, lambda kind: draw_value(rng, kind)))
+        yield mk_case(rng, items)
+
+def many_systematic(rng):
+    # every rendering, 4 secrets under the same key and rendering (a few keys per rendering)
+    for r in RENDERINGS:
+        for k in rng.sample(SPEC_KEYS, 3):
+            K = casing(rng, k, rng.randrange(3))
+            yield mk_case(rng, [rendering(rng, r, K, lambda kind: draw_value(rng, kind, maxlen=4)) for _ in range(4)], secret='***')
+
+def overlap_texts():
+    """key texts that are the overlap / concatenation of two sanitize keys and END in a key: new_pass+password ->
+    new_password, adminpass+passphrase -> adminpassphrase, token+password -> tokenpassword (the last key is the one rendered)"""
+    out = []
+    for k1 in SPEC_KEYS:
+        for k2 in SPEC_KEYS:
+            if k1 == k2: continue
+            for n in range(1, min(len(k1), len(k2))):
+                if k1.endswith(k2[:n]): out.append(k1 + k2[n:])
+            out.append(k1 + k2)
+    seen = set(); res = []
+    for t in out:
+        if t not in seen and t not in SPEC_KEYS: seen.add(t); res.append(t)
+    return res
+
+KEYED_AT_END = ['bare', 'bare_sp', 'eq_dq', 'eq_sq', 'kq', 'cmd2', 'json_dq', 'json_sq', 'json_u', 'cmd1']   # renderings that tolerate text before the key
+
+def overlap_cases(rng, n_cases):
+    texts = overlap_texts()
+    for i in range(n_cases):
+        t = texts[i % len(texts)] if i < 2 * len(texts) else rng.choice(texts)
+        how = rng.randrange(3)
+        yield mk_case(rng, [rendering(rng, rng.choice(KEYED_AT_END), casing(rng, t, how), lambda kind: draw_value(rng, kind))])
+
+def unicode_ws_cases(rng, n_cases):
+    """non-ASCII white space next to key / separator / value; keys spelt with the KELVIN SIGN (a casing in the sense of str.lower())"""
+    for i in range(n_cases):
+        k = rng.choice([x for x in SPEC_KEYS if 'k' in x]) if i % 3 == 0 else rng.choice(SPEC_KEYS)
+        K = casing(rng, k, 4 if i % 3 == 0 else rng.randrange(4))
+        r = rng.choice(RENDERINGS)
+        w = rng.choice(UNI_WS)
+        it = rendering(rng, r, K, lambda kind: draw_value(rng, kind))
+        # force the special white space where the rendering has optional / required white space
+        if r in ('bare_sp', 'eq_dq', 'eq_sq', 'eq_dq_oq', 'eq_sq_oq'): it[0] = it[0].replace('=', w + '=' + w, 1) if rng.random() < 0.5 else it[0]
+        if r == 'kq': it[0] = K + w + it[0][-1]
+        if r == 'dd': it[0] = '--' + K + w
+        c = mk_case(rng, [it], post=neutral(rng, rng.randint(1, 3)))
+        # the separator after the rendering is the special white space
+        c['segs'] = [s if isinstance(s, list) else s for s in c['segs']]
+        if isinstance(c['segs'][-1], str) and len(c['segs']) >= 2 and isinstance(c['segs'][-2], list):
+            c['segs'][-1] = w + c['segs'][-1].lstrip(' \n\t' + ''.join(UNI_WS))
+        yield c
+
+LONG_NEUTRAL = ['\u0130\u0130', '\u0130x\u0130', 'Traceback', '(most', 'recent', 'call', 'last):', 'line', '42,', 'in', 'handle']
+
+def multiline_cases(rng, n_cases):
+    """two or more DIFFERENT keys on different lines, the earlier-listed key first, its secret longer / shorter than the mask;
+    characters whose lower() changes length (U+0130) before the keys"""
+    for i in range(n_cases):
+        n = rng.choice([2, 2, 3])
+        idx = sorted(rng.sample(range(len(SPEC_KEYS)), n))
+        if i % 4 == 3: idx.reverse()
+        lines = []
+        for j, ki in enumerate(idx):
+            k = SPEC_KEYS[ki]; how = rng.randrange(4)
+            ln = rng.choice([1, 2, 30, 60]) if j == 0 else rng.choice([1, 3, 8])
+            it = rendering(rng, rng.choice([r for r in RENDERINGS if not r.startswith('json') and r != 'cmd1']), casing(rng, k, how) + digits(rng, how),
+                           lambda kind: draw_value(rng, kind, maxlen=ln) if ln < 30 else (draw_value(rng, kind, maxlen=8) * 12)[:ln])
+            lines.append(it)
+        segs = []
+        lead = ' '.join(rng.choice(LONG_NEUTRAL) for _ in range(rng.randint(0, 4)))
+        if lead: segs.append(lead + rng.choice(['\n', ' ']))
+        for j, it in enumerate(lines):
+            if j: segs.append('\n' + (' '.join(rng.choice(LONG_NEUTRAL + NEUTRAL) for _ in range(rng.randint(0, 2))) + ' ' if rng.random() < 0.5 else ''))
+            segs.append(it)
+        if rng.random() < 0.5: segs.append('\n' + neutral(rng, 2))
+        yield {'op': 'mask', 'segs': segs, 'secret': rng.choice(['***', '***', '?', 'XXXXXXXX'])}
+
 def gen_cases(rng, tier):
     yield from systematic(rng, tier)
+    yield from overlap_cases(rng, 700 if tier == 'quick' else 6000)
+    yield from unicode_ws_cases(rng, 500 if tier == 'quick' else 6000)
+    yield from multiline_cases(rng, 500 if tier == 'quick' else 6000)
+    yield from many_systematic(rng)
     scale = 1 if tier == 'quick' else 25
+    yield from many_secrets(rng, 600 * scale)
     for _ in range(1500 * scale):          # random single and multiple secrets
         n = rng.choice([1, 1, 2, 2, 3])
         items = []
@@ -335,12 +436,22 @@ def search(rng, budget):
                 items.append(rendering(rng, rng.choice(RENDERINGS), casing(rng, k, how) + digits(rng, how), lambda kind: draw_value(rng, kind)))
             n += 1
             yield mk_case(rng, items)
+        for c in many_systematic(rng):
+            n += 1
+            yield c
+        for g in (overlap_cases(rng, 3000), unicode_ws_cases(rng, 1500), multiline_cases(rng, 1500)):
+            for c in g:
+                n += 1
+                yield c
+        for c in many_secrets(rng, 600):
+            n += 1
+            yield c
         for _ in range(500):
             n += 1
             yield {'op': 'mask', 'msg': free_text(rng), 'secret': '***', 'kind': 'free'}
 
 RULE = ('systematic: 35 keys x 15 rendering variants x {lower, UPPER, Capitalised, random-case+digits}; every rendering x every printable ASCII '
-        'character of its value class and a non-ASCII pool at start/middle/end; lengths 1..40; random 1-3 secrets per message in neutral text; '
+        'character of its value class and a non-ASCII pool at start/middle/end; lengths 1..40; random 1-3 secrets per message in neutral text; 3-6 secrets per message (same key+rendering / same key / mixed); key texts that overlap/concatenate two keys; non-ASCII white space and KELVIN-SIGN casings; multi-line messages with different keys and U+0130 before them; '
         'free text with near-miss keys; token fuzz; engine validation (pattern x subject); zone predicate. distinct = distinct case JSON; '
         'trivial = keyless message shorter than 2 characters')
 TRUSTED = ['CPython re semantics as modelled in Base/Regex.v (validated per run against re on the module\'s own compiled patterns)',
@@ -349,7 +460,7 @@ TRUSTED = ['CPython re semantics as modelled in Base/Regex.v (validated per run 
 ASSUMPTIONS = ['mask strings: non-empty, no whitespace/quote/=/</backslash, containing no sanitize key (an empty or space-containing mask makes '
                'masking non-idempotent: password=abc def -> password= def -> password=; recorded as an observation in notes/C04.md)',
                'neutral surrounding text: whitespace-separated words without quotes or sanitize keys',
-               'the whole-function statement is proved on a bounded family only (C04_mask_whole_bounded); the universal theorems are per pattern/rendering']
+               'universal whole-function theorems cover one secret per message under the stated side conditions; several secrets per message: bounded + oracle']
 
 def extra_checks(rng, tier):
     """thorough tier: the larger bounded whole-function sweep (Model/C04_Sweep.family_thorough) checked by coqc
@@ -387,13 +498,17 @@ def extra_checks(rng, tier):
         yield ('coq_thorough_sweep', {'op': 'coq_sweep', 'shard': i, 'of': n},
                None if rc == 0 else 'thorough bounded sweep: shard %d/%d of family_thorough does not check: %s' % (i, n, out.strip()[-300:]))
 
-LEVEL_TEXT = ('Universal theorems (all messages / all keys over [a-z_] / all casings / all digit suffixes / all values of the class, any length): '
-              'the 35 documented keys are covered by the generated list; a message without a key is unchanged; every substitution of the function only '
-              'rewrites the text between its groups (frame); nine rendering theorems proved generically from the regenerated pattern TEMPLATES '
-              '(k=v, k="v", k=\'v\', k \'v\', --k v, <k>v</k>, "k": "v", k --flag v). The whole-function statement (all 35 keys x 12 substitutions in order, '
-              'value replaced exactly, idempotent) is proved on a BOUNDED family of 8 022 messages by kernel computation. The full statement is refuted by '
-              'the wildcard pattern (known finding K12, witness in Coq and replayed on the implementation); a second zone K14 (found here) is excluded too. '
-              'Two renderings (\'...k\': u\'v\' and the \'k\', \'--flag\', \'v\' command form) have no universal theorem (backtracking patterns): bounded + oracle only.')
-LEVEL_NOTE = ('Partial: the whole-function theorem is bounded; universal theorems are per pattern. Trusted: Coq kernel/vm_compute; translator gen_C04.py + regex_tr.py '
-              '(CPython re._parser, classes by CPython\'s matcher; concrete regexes proved equal to the templates at the keys); Base/Regex.v as the model of re '
-              '(validated each run against the module\'s compiled patterns); str.lower() table; secrets without backslash. No axioms (all Closed under the global context).')
+LEVEL_TEXT = ('Universal theorems (all messages / all keys over [a-z_] / all casings / digit suffixes / all values of the class, any length): '
+              'the 35 documented keys are covered by the generated list; a message without a key is unchanged; every substitution only rewrites the text '
+              'between its groups (frame); ELEVEN rendering theorems proved generically from the regenerated pattern TEMPLATES (the two backtracking '
+              'patterns via language soundness/completeness of the matcher and quote counting). UNIVERSAL WHOLE-FUNCTION theorems for all ten rendering '
+              'forms: for every generated key, value, mask and surrounding text without quote/-/</=/> characters, under decidable side conditions '
+              '(the key occurs only at the rendered position; no other key in lower(message)), mask_password replaces exactly the value and is idempotent '
+              'on the result - proved with a verified abstract "cannot match" checker for the other eleven patterns. Complement: BOUNDED sweeps by kernel '
+              'computation (6 248 single-secret messages, 48 four-secret messages). The full statement is refuted by the wildcard pattern (K12) and by K14 '
+              '(witness theorems); both zones are decidable predicates on the input, mirrored in the plugin.')
+LEVEL_NOTE = ('Partial where stated: multi-secret messages, keys containing another key (6 of 35) and quoted values containing the other quote kind are '
+              'covered by bounded sweeps + oracle only. Trusted: Coq kernel/vm_compute; translator gen_C04.py + regex_tr.py (CPython re._parser, classes by '
+              'CPython\'s matcher; concrete regexes proved equal to the templates at the keys; AST shape of mask_password and of the compile loop checked); '
+              'Base/Regex.v as the model of re (validated each run against the module\'s compiled patterns); str.lower() table; secrets without backslash. '
+              'No axioms (all Closed under the global context).')
